@@ -895,8 +895,13 @@ func (w *Writer) appendTar(r io.Reader, lossless bool) error {
 	if lossless {
 		tr.RawAccounting = true
 	}
+	// Start this tar on a new compression member so that the offsets recorded for its
+	// entries are relative to a member boundary also when AppendTar is called several times.
+	if err := w.closeGz(); err != nil {
+		return err
+	}
 	prevOffset := w.cw.n
-	var prevOffsetUncompressed int64
+	prevOffsetUncompressed := w.uncompressedCounter.n
 	for {
 		h, err := tr.Next()
 		if err == io.EOF {
